@@ -21,11 +21,11 @@ func init() {
 		Explanation: "One rule set applied uniformly to the six sibling helpers of package test (cross-check by uniform obligations over SSA, not by text equality): " +
 			"C20.iface: on the first case the value is tested against the interface whose method carries the helper's name; failure calls assert.FailNow(f) with the helper's t and returns. " +
 			"C20.dir: the helper filters with the direction predicate of its own direction, applied to the case's Constraint, the false edge skipping the case; isForMarshal/isForUnmarshal are c==0 ∨ c==Only<own> (table over the constraint values). " +
-			"C20.hooks: Before precedes and After follows the marshal call, both through callForCase, both results asserted with NoError, a failure skips the case; no path from the marshal call to the next case avoids the After hook. C20.support: helperNew allocates a fresh target exactly when helper == nil and T is a pointer type (decision by the type only), otherwise helper.New(value); helperAssertEmpty/Equal assert on t with the values in order, or delegate to the TypeHelper. " +
+			"C20.hooks: Before precedes and After follows the marshal call, both through callForCase, both results asserted with NoError, a failure skips the case; no path from the marshal call to the next case avoids the After hook; both hooks receive the address of the variable the case's Data/Value/Error are read from. C20.support: helperNew allocates a fresh target exactly when helper == nil and T is a pointer type (decision by the type only), otherwise helper.New(value); helperAssertEmpty/Equal assert on t with the values in order, or delegate to the TypeHelper; castToFunc makes both interface probes on its parameter (any(value), any(&value)), not on a zero T. " +
 			"C20.safe: the user's Marshal*/Unmarshal* method is invoked only inside a function with a deferred recover whose result is turned into the returned error; callForCase protects the hooks the same way. " +
-			"C20.verdict: with an error predicate: the predicate is invoked with (t, the obtained error, info) and, on true, an emptiness assertion on the produced data/value follows; without: NoError on the obtained error and, on true, an equality assertion between the case's expectation and the produced data/value; every assertion receives the helper's t. " +
+			"C20.verdict: with an error predicate: the predicate is invoked with (t, the obtained error, info) and, on true, an emptiness assertion on the produced data/value follows; without: NoError on the obtained error and, on true, an equality assertion between the case's expectation and the produced data/value; every assertion receives the helper's t; the expectation reaches the assertion as loaded from the case, unconverted. " +
 			"C20.pred: each error predicate calls the assertion its name promises (assertion), and can answer false only where an assertion on t is known to have failed — the returned value is an assertion's own result, or the return lies behind the false edge of one, or behind assert.Fail (reports).",
-		NotDecided:  []string{"testify's assertion semantics", "behaviour when T is itself an interface type"},
+		NotDecided:  []string{"testify's assertion semantics", "behaviour when T is itself an interface type, beyond castToFunc probing the case value itself (C20.support probe)"},
 		Assumptions: []string{"assert.NoError/Equal/Nil/Empty/Error report a failure on t exactly when their condition does not hold and return false then"},
 		Technique:   "must-call / dominance / argument-dataflow obligations over go/ssa, applied uniformly to sibling implementations",
 	})
